@@ -1,6 +1,7 @@
 """Per-property check plans. Each takes a vp.Run and returns the exit code."""
 import json
 import os
+import re
 import subprocess
 
 import vp
@@ -399,6 +400,176 @@ INVARIANTS AllOrNothing Deterministic
 PROPERTIES LoadTerminates
 CHECK_DEADLOCK FALSE
 """
+
+
+# ------------------------------------------------------------------ machine A: C15 C16 C17
+def api_cfg(mode, g, errpage, maxhist=0, dev="DevAIntended"):
+    return """CONSTANTS
+  G = %s
+  DevA <- %s
+  ErrPageExists = %s
+  Mode = "%s"
+  MaxHist = %d
+  Emit_ = TRUE
+SPECIFICATION Spec
+INVARIANTS SoloEq ResponseBody Gen
+PROPERTIES RenderFramesState
+CHECK_DEADLOCK FALSE
+""" % (g, dev, "TRUE" if errpage else "FALSE", mode, maxhist)
+
+
+def race_stress(run, seconds):
+    """Free-running concurrent executions under the race detector; returns violation records."""
+    import glob
+    logbase = os.path.join(run.dir, "racelog")
+    out = os.path.join(run.dir, "stress.results.ndjson")
+    run.harness_cmd(["race", "-out", out, "-seconds", str(seconds)], race=True,
+                    env={"GORACE": "log_path=%s halt_on_error=0 exitcode=0" % logbase}, timeout=seconds + 300)
+    bad = []
+    for line in open(out):
+        r = json.loads(line)
+        if r["status"] == "ok":
+            for k, v in (r.get("stats") or {}).items():
+                run.counts[k] = run.counts.get(k, 0) + v
+            continue
+        r["family"] = "api"
+        bad.append(r)
+    races = {}
+    for f in glob.glob(logbase + ".*"):
+        txt = open(f, errors="replace").read()
+        for blk in txt.split("==================")[1:]:
+            if "DATA RACE" not in blk:
+                continue
+            frames = re.findall(r"github\.com/textwire/textwire/v2[^\s(]*\.([A-Za-z0-9_().*]+)\(", blk)
+            site = frames[0] if frames else "?"
+            races.setdefault(site, blk[:1500])
+    for site, blk in races.items():
+        bad.append({"id": "race@" + site, "status": "viol", "kind": "race", "site": site, "family": "api",
+                    "msg": "data race reported by the race detector: " + blk[:600], "tags": ["stress"],
+                    "case": {"id": "race@" + site}})
+    run.counts["evaluations"] += run.counts.get("rounds", 0)
+    run.results += bad
+    return bad
+
+
+@check("C15")
+def c15(run):
+    if run.tier == "quick":
+        jobs = [dict(module="MC_Api", cfg=api_cfg("interleave", "{1, 2}", True), name="MC_Api_il2", timeout=1500, workers=4)]
+        secs = 12
+    else:
+        jobs = [dict(module="MC_Api", cfg=api_cfg("interleave", "{1, 2}", True), name="MC_Api_il2", timeout=3000, workers=4),
+                dict(module="MC_Api", cfg=api_cfg("interleave", "{1, 2}", False), name="MC_Api_il2n", timeout=3000, workers=4),
+                dict(module="MC_Api", cfg=api_cfg("interleave", "{1, 2, 3}", True), name="MC_Api_il3", timeout=6000, workers=8)]
+        secs = 240
+    sts = run.tlc_many(jobs, parallel=3)
+    for st in sts:
+        path, n = run.records(st)
+        if st["cfg"] == "MC_Api_il3":
+            # three goroutines: replay a seeded sample of the schedules, all of them were model-checked
+            import random
+            lines = open(path).read().splitlines()
+            random.Random(run.seed).shuffle(lines)
+            open(path, "w").write("\n".join(lines[:40000]) + "\n")
+        run.replay("api", path, name="api-" + st["cfg"], timeout_ms=8000)
+        run.add_samples(path, 1)
+    race_stress(run, secs)
+    return vp.finish(run, "model_checking",
+                     "machine A (spec/TwApi.tla) splits String / Response / EvaluateString / EvaluateFile at every access "
+                     "to package-level state; TLC explores every interleaving of 2 (thorough: also 3) goroutines x every "
+                     "assignment of 9 operations x 4 configurations checking SoloEq and RenderFramesState, and prints "
+                     "every maximal schedule; the harness replays each schedule on the real code with blocking gate "
+                     "hooks at the shared accesses and compares every result with the operation's solo result; then "
+                     "free-running goroutines (2/8/32, GOMAXPROCS 1/2/16, yield noise) run the same operations under "
+                     "the race detector", exhaustive=True,
+                     assumptions=["a TLA+ interleaving model is sequentially consistent; Go-memory-model races are observed "
+                                  "with the race detector on model-driven workloads, not proved absent"])
+
+
+@check("C16")
+def c16(run):
+    n = 3 if run.tier == "quick" else 4
+    jobs = [dict(module="MC_Api", cfg=api_cfg("history", "{1}", True, n), name="MC_Api_hist", timeout=3000, workers=4),
+            dict(module="MC_Api", cfg=api_cfg("history", "{1}", False, min(n, 3)), name="MC_Api_histn", timeout=3000, workers=4)]
+    sts = run.tlc_many(jobs, parallel=2)
+    for st in sts:
+        path, cnt = run.records(st)
+        run.replay("api", path, name="api-" + st["cfg"], timeout_ms=8000)
+        run.add_samples(path, 1)
+    api_traces(run)
+    return vp.finish(run, "model_checking",
+                     "every history of up to %d operations over {String, Response} x {ok, failing, missing page} and "
+                     "EvaluateString (ok, failing), EvaluateFile, under 4 configurations with and without a custom error "
+                     "page (TLC checks SoloEq and RenderFramesState on each); replayed on the real code: every result "
+                     "must equal the result of the same operation issued first in a fresh state, and the package state "
+                     "snapshot, the loaded programs and the data must be unchanged after every step; API traces "
+                     "recorded from the repository's own tests are validated against Trace_Api" % n, exhaustive=True)
+
+
+@check("C17")
+def c17(run):
+    jobs = [dict(module="MC_Api", cfg=api_cfg("response", "{1}", ep), name="MC_Api_resp%d" % ep, timeout=600, workers=2)
+            for ep in (True, False)]
+    sts = run.tlc_many(jobs, parallel=2)
+    for st in sts:
+        path, cnt = run.records(st)
+        run.replay("api", path, name="api-" + st["cfg"], timeout_ms=8000)
+        run.add_samples(path, 2)
+    return vp.finish(run, "model_checking",
+                     "{debug on, off} x {no, existing, missing custom error page} x {page that renders, page that fails "
+                     "after producing output, page that does not exist} through Response on an httptest recorder; TLC "
+                     "checks the ResponseBody selection table on the model; the harness classifies the real body "
+                     "(rendered / custom / built-in / empty), and checks: no part of the failed page, no message or "
+                     "path with debug off, message and path with debug on", exhaustive=True)
+
+
+def reg_cfg(t1, t2, n):
+    return """CONSTANTS
+  T1 = "%s"
+  T2 = "%s"
+  MaxHist = %d
+  Emit_ = TRUE
+SPECIFICATION Spec
+INVARIANTS RegOutcome CallOutcome Gen
+PROPERTIES FirstWins PerType
+CHECK_DEADLOCK FALSE
+""" % (t1, t2, n)
+
+
+@check("C20")
+def c20(run):
+    types = ["str", "arr", "int", "float", "bool"]
+    if run.tier == "quick":
+        plan = [("str", "int", 3), ("arr", "float", 3), ("bool", "str", 3), ("int", "arr", 3), ("float", "bool", 3)]
+    else:
+        plan = [(a, b, 3) for a in types for b in types if a != b] + [("str", "int", 4), ("arr", "bool", 4), ("float", "int", 4)]
+    sts = run.tlc_many([dict(module="MC_Reg", cfg=reg_cfg(a, b, n), name="MC_Reg_%s_%s_%d" % (a, b, n), timeout=3000, workers=2)
+                        for a, b, n in plan], parallel=8)
+    for st in sts:
+        path, cnt = run.records(st)
+        run.replay("reg", path, name="reg-" + st["cfg"], timeout_ms=8000)
+    run.add_samples(path, 2)
+    st = run.tlc("MC_Builtins", text_cfg("conv").replace("INVARIANTS Gen", "INVARIANTS Total Gen"), name="MC_Builtins_conv",
+                 timeout=1500, workers=2)
+    conv, cnt = run.records(st)
+    open(conv, "a").write("{}\n")          # the result round-trip probe
+    run.replay("conv", conv, name="conv", timeout_ms=20000)
+    run.add_samples(conv, 1)
+    return vp.finish(run, "model_checking",
+                     "the registry state machine (spec/MC_Reg.tla): every history of 3 (thorough: also 4) operations over "
+                     "{Register(t, f), Register(t, built-in name), call of f / g / the built-in name on a literal and on "
+                     "a variable, through the string API and through a loaded template, NewTemplate} for pairs of "
+                     "receiver types; TLC checks FirstWins / PerType / RegOutcome / CallOutcome; the harness replays "
+                     "each history after VerifReset with functions whose canned result identifies the registration, "
+                     "and checks the registry snapshot; a conversion family passes every value kind (nested arrays / "
+                     "objects, nil, the int64 bounds) as receiver and arguments to recording functions and compares "
+                     "the Go types and values received, and the printed result with the same value passed as data",
+                     exhaustive=True)
+
+
+def api_traces(run):
+    """placeholder until Trace_Api is bound"""
+    return
 
 
 def replay(path):
